@@ -931,4 +931,43 @@ pub mod vx_export {
         if r.hash() != c01_root_hash::<TC>(&leaves) { return Ok(Some("after the retry the root hash is not the canonical one for the history".to_string())); }
         Ok(None)
     }
+
+    /// C10 with PARALLEL insertion and a batch large enough to spawn tasks: publish 24 labels; the second publish (all 24 updated) fails at
+    /// database operation k; everything the call left running gets its chance to run; then a DIFFERENT small batch is published and the
+    /// result compared with a directory that never saw the failed call. Returns (failed, records before, records after the failed call,
+    /// final state matches the reference, every lookup of the final state verifies).
+    pub async fn c10_stray_writes<TC: Configuration>(k: i64, cache: bool) -> Result<(bool, usize, usize, bool, bool), AkdError> {
+        use std::sync::atomic::AtomicI64;
+        let b1: Vec<(AkdLabel, AkdValue)> = (0..24).map(|i| (AkdLabel(format!("u{i}").into_bytes()), AkdValue(format!("a{i}").into_bytes()))).collect();
+        let b2: Vec<(AkdLabel, AkdValue)> = (0..24).map(|i| (AkdLabel(format!("u{i}").into_bytes()), AkdValue(format!("b{i}").into_bytes()))).collect();
+        let b3 = vec![(AkdLabel::from("u3"), AkdValue::from("c3")), (AkdLabel::from("fresh"), AkdValue::from("f1"))];
+        let mk = |db: FaultyDb| if cache { StorageManager::new(db, None, None, None) } else { StorageManager::new_no_cache(db) };
+        let rdb = FaultyDb { inner: AsyncInMemoryDatabase::new(), ops: Arc::new(AtomicI64::new(0)), fail_at: Arc::new(AtomicI64::new(-1)) };
+        let rdir = Directory::<TC, _, _>::new(mk(rdb), HardCodedAkdVRF {}, AzksParallelismConfig::default()).await?;
+        rdir.publish(b1.clone()).await?;
+        let reference = rdir.publish(b3.clone()).await?;
+        let db = FaultyDb { inner: AsyncInMemoryDatabase::new(), ops: Arc::new(AtomicI64::new(0)), fail_at: Arc::new(AtomicI64::new(-1)) };
+        let dir = Directory::<TC, _, _>::new(mk(db.clone()), HardCodedAkdVRF {}, AzksParallelismConfig::default()).await?;
+        dir.publish(b1.clone()).await?;
+        let before = db.inner.size_of_db();
+        db.ops.store(0, Ordering::SeqCst);
+        db.fail_at.store(k, Ordering::SeqCst);
+        let r = dir.publish(b2).await;
+        db.fail_at.store(-1, Ordering::SeqCst);
+        for _ in 0..512 { tokio::task::yield_now().await; }
+        let after = db.inner.size_of_db();
+        if r.is_ok() { return Ok((false, before, after, true, true)); }
+        let fin = match dir.publish(b3).await { Ok(e) => e, Err(_) => return Ok((true, before, after, false, false)) };
+        let same = fin.epoch() == reference.epoch() && fin.hash() == reference.hash();
+        let pk = dir.get_public_key().await?;
+        let mut all_verify = true;
+        for i in [0usize, 3, 7, 23] {
+            let name = AkdLabel(format!("u{i}").into_bytes());
+            match dir.lookup(name.clone()).await {
+                Ok((p, eh)) => if lookup_verify::<TC>(pk.as_bytes(), eh.hash(), eh.epoch(), name, p).is_err() { all_verify = false; },
+                Err(_) => all_verify = false,
+            }
+        }
+        Ok((true, before, after, same, all_verify))
+    }
 }
